@@ -5,7 +5,7 @@ use std::{
     mem,
     num::NonZeroU32,
     str::FromStr,
-    sync::Arc,
+    sync::{Arc, Mutex as SyncMutex, MutexGuard, PoisonError},
 };
 
 #[cfg(feature = "tls")]
@@ -76,7 +76,17 @@ pub struct Session<T: Transport> {
     transport_rx: Arc<Mutex<T::RecvHandle>>,
     context: Context,
     last_message_id: rpc::MessageId,
-    requests: Arc<Mutex<HashMap<rpc::MessageId, OutstandingRequest>>>,
+    requests: Requests,
+}
+
+// The map of outstanding requests is never locked across an `.await`, so that a reply taken off
+// the transport is always recorded before the future that read it can be dropped.
+type Requests = Arc<SyncMutex<HashMap<rpc::MessageId, OutstandingRequest>>>;
+
+fn lock_requests(
+    requests: &Requests,
+) -> MutexGuard<'_, HashMap<rpc::MessageId, OutstandingRequest>> {
+    requests.lock().unwrap_or_else(PoisonError::into_inner)
 }
 
 /// NETCONF session state container.
@@ -215,7 +225,7 @@ impl<T: Transport> Session<T> {
             client_capabilities,
             server_capabilities,
         );
-        let requests = Arc::new(Mutex::new(HashMap::default()));
+        let requests = Arc::new(SyncMutex::new(HashMap::default()));
         Ok(Self {
             transport_tx,
             transport_rx,
@@ -270,17 +280,21 @@ impl<T: Transport> Session<T> {
         #[cfg(bgpfu_verif)]
         verif::sched_point("rpc:before-requests-lock").await;
         #[allow(clippy::significant_drop_in_scrutinee)]
-        match self.requests.lock().await.entry(message_id) {
+        match lock_requests(&self.requests).entry(message_id) {
             Entry::Occupied(_) => return Err(Error::MessageIdCollision { message_id }),
             Entry::Vacant(entry) => {
-                #[cfg(bgpfu_verif)]
-                verif::sched_point("rpc:before-send").await;
-                request.send(&mut *self.transport_tx.lock().await).await?;
-                #[cfg(bgpfu_verif)]
-                verif::sched_point("rpc:after-send").await;
                 _ = entry.insert(OutstandingRequest::Pending);
             }
         };
+        #[cfg(bgpfu_verif)]
+        verif::sched_point("rpc:before-send").await;
+        let sent = request.send(&mut *self.transport_tx.lock().await).await;
+        #[cfg(bgpfu_verif)]
+        verif::sched_point("rpc:after-send").await;
+        if let Err(err) = sent {
+            _ = lock_requests(&self.requests).remove(&message_id);
+            return Err(err);
+        }
         let requests = self.requests.clone();
         let rx = self.transport_rx.clone();
         Ok(Self::recv::<O>(message_id, requests, rx))
@@ -289,7 +303,7 @@ impl<T: Transport> Session<T> {
     #[tracing::instrument(skip(requests, rx), level = "debug")]
     async fn recv<O>(
         message_id: rpc::MessageId,
-        requests: Arc<Mutex<HashMap<rpc::MessageId, OutstandingRequest>>>,
+        requests: Requests,
         rx: Arc<Mutex<<T as Transport>::RecvHandle>>,
     ) -> Result<<O::Reply as IntoResult>::Ok, Error>
     where
@@ -306,9 +320,7 @@ impl<T: Transport> Session<T> {
             verif::sched_point("recv:holding-rx-lock").await;
             tracing::trace!(?requests);
             tracing::debug!("checking for ready response");
-            if let Some(partial) = requests
-                .lock()
-                .await
+            if let Some(partial) = lock_requests(&requests)
                 .get_mut(&message_id)
                 .ok_or(Error::RequestNotFound { message_id })?
                 .take()?
@@ -324,9 +336,7 @@ impl<T: Transport> Session<T> {
             #[cfg(bgpfu_verif)]
             verif::sched_point("recv:after-transport-recv").await;
             #[allow(clippy::significant_drop_in_scrutinee)]
-            match requests
-                .lock()
-                .await
+            match lock_requests(&requests)
                 .get_mut(&reply.message_id())
                 .ok_or_else(|| Error::RequestNotFound {
                     message_id: reply.message_id(),
